@@ -1,10 +1,11 @@
 /-
   Driver.CastProto — line protocol of C12 (projection views) on top of Driver.Proto:
 
-    t s4|cplx|int                       element kind of the program (sizeof 32 / 16 / 4)
+    t s4|cplx|int|s3                    element kind of the program (sizeof 32 / 16 / 4 / 24)
     root / v / q ...                    as in Driver.Proto (positions count elements of that kind)
     x member <reg> <k>                  member_cast<double>(&S4::m_k)
-    x reint <reg> <sU>                  reinterpret_array_cast<U>()        (cplx -> double, int -> unsigned)
+    x reint <reg> <sU>                  reinterpret_array_cast<U>()        (cplx -> double, int -> unsigned, s3 -> double)
+    x reintq <reg> <sU>                 reinterpret_array_cast<U>() with a NON-integral size ratio (s3 -> complex<double>, complex<double> -> s3)
     x reintn <reg> <sU> <n>             reinterpret_array_cast<double>(n)
     x same <reg> <w>                    static_array_cast / as_const / const_array_cast
     x real|imag <reg>                   blas::real / blas::imag = reinterpret_array_cast<complex_dummy>().member_cast
@@ -21,10 +22,10 @@ import Driver.Proto
 namespace Driver.CastP
 open Multi
 
-inductive Kind where | s4 | cplx | int
+inductive Kind where | s4 | cplx | int | s3
 deriving DecidableEq, Inhabited
 
-def Kind.esz : Kind → Int | .s4 => 32 | .cplx => 16 | .int => 4
+def Kind.esz : Kind → Int | .s4 => 32 | .cplx => 16 | .int => 4 | .s3 => 24
 def Kind.slot : Kind → Int | .int => 4 | _ => 8
 
 /-- memory: value of the slot (double or int) at byte address `A` -/
@@ -34,10 +35,10 @@ def Kind.mem0 : Kind → Mem
   | _ => fun A => A.tdiv 8
 
 /-- printed element types -/
-inductive Ty where | dbl | int | uint | cplx | s4
+inductive Ty where | dbl | int | uint | cplx | s4 | s3
 deriving DecidableEq, Inhabited
 
-def Kind.ty : Kind → Ty | .s4 => .s4 | .cplx => .cplx | .int => .int
+def Kind.ty : Kind → Ty | .s4 => .s4 | .cplx => .cplx | .int => .int | .s3 => .s3
 
 def showAt (mem : Mem) : Ty → Int → String
   | .dbl, A => toString (mem A)
@@ -45,6 +46,7 @@ def showAt (mem : Mem) : Ty → Int → String
   | .uint, A => toString ((mem A).emod 4294967296)
   | .cplx, A => s!"{mem A},{mem (A + 8)}"
   | .s4, A => s!"{mem A},{mem (A + 8)},{mem (A + 16)},{mem (A + 24)}"
+  | .s3, A => s!"{mem A},{mem (A + 8)},{mem (A + 16)}"
 
 structure St where
   base : Driver.St
@@ -60,16 +62,18 @@ def describe (tag : String) (mem : Mem) (ty : Ty) (r : TView) : String :=
   s!"{tag} {r.v.lay.length} | {fmtExts r.exts} | {idxs.length} : {ints as} | {" ".intercalate (as.map (showAt mem ty))}"
 
 /-- the array constructed from a projection with extents `es` and printed elements `read idx` -/
-def describeCtor (es : List Ext) (read : List Int → String) : String :=
+def describeCtor (es : List Ext) (read : List Int → String) (tag : String := "ctor") : String :=
   let A := constructFrom es read id
-  s!"ctor {A.lay.length} | {fmtExts A.lay.exts} | {A.data.length} : {" ".intercalate A.data}"
+  s!"{tag} {A.lay.length} | {fmtExts A.lay.exts} | {A.data.length} : {" ".intercalate A.data}"
 
-def ctorOf (mem : Mem) (ty : Ty) (r : TView) : String := describeCtor r.exts fun idx => showAt mem ty (r.byteAddr idx)
+def ctorOf (mem : Mem) (ty : Ty) (r : TView) (tag : String := "ctor") : String :=
+  describeCtor r.exts (fun idx => showAt mem ty (r.byteAddr idx)) tag
 
 /-- value functors of the harness, on the element at byte address `A` -/
 def fval (k : Kind) (mem : Mem) (A : Int) : String :=
   match k with
   | .s4 => toString (mem A + 3 * mem (A + 16))
+  | .s3 => toString (mem A + 3 * mem (A + 16))
   | .cplx => s!"{mem A},{- mem (A + 8)}"
   | .int => toString (3 * mem A + 1)
 
@@ -77,12 +81,14 @@ def fval (k : Kind) (mem : Mem) (A : Int) : String :=
 def gref (k : Kind) (A : Int) : Int :=
   match k with
   | .s4 => A + 16
+  | .s3 => A + 16
   | .cplx => A + 8
   | .int => A
 
 def slotsOf (k : Kind) (A : Int) : List Int :=
   match k with
   | .s4 => [A, A + 8, A + 16, A + 24]
+  | .s3 => [A, A + 8, A + 16]
   | .cplx => [A, A + 8]
   | .int => [A]
 
@@ -97,6 +103,15 @@ def query (st : St) (ctor : Bool) (what : String) (v : View) (a : List Int) : Li
   match what, k, a with
   | "member", .s4, [m] =>
     assertLine (t.memberCastAsserts 8) "scale" ++ [out "member" .dbl (t.memberCast 8 (8 * m))]
+  | "member", .s3, [m] =>
+    assertLine (t.memberCastAsserts 8) "scale" ++ [out "member" .dbl (t.memberCast 8 (8 * m))]
+  | "reintq", _, [sU] =>
+    -- reinterpret_array_cast<U>() with a non-integral size ratio: s3 (24) -> complex<double> (16), complex<double> -> s3
+    let r := t.reinterpret sU
+    let ty : Ty := if sU == 24 then .s3 else .cplx
+    assertLine (t.reinterpretAsserts sU) "scale" ++
+      (if t.reinterpret1 sU != r then ["INTERNAL reinterpret_array_cast const/mutable differ"] else []) ++
+      [if ctor then ctorOf mem ty r "ctorq" else describe "reintq" mem ty r]
   | "reintn", _, [sU, n] =>
     let r := t.reinterpretN sU n
     assertLine (t.reinterpretNAsserts sU n) "reinterpret(n)" ++
@@ -147,6 +162,7 @@ def step (st : St) (line : String) : St × List String :=
   | ["t", "s4"] => ({ st with kind := .s4 }, [])
   | ["t", "cplx"] => ({ st with kind := .cplx }, [])
   | ["t", "int"] => ({ st with kind := .int }, [])
+  | ["t", "s3"] => ({ st with kind := .s3 }, [])
   | "x" :: "ctor" :: reg :: what :: rest =>
     match reg.toNat?, parseInts rest with
     | some r, some a => (st, query st true what st.base.views[r]! a)
